@@ -11,6 +11,8 @@ func init() {
 	vxRegister("H17a2", H17a2)
 	vxRegister("H17a3", H17a3)
 	vxRegister("H17a4", H17a4)
+	vxRegister("H17a5", H17a5)
+	vxRegister("H17a7", H17a7)
 	vxRegister("H17aT", H17aT)
 }
 
@@ -18,6 +20,8 @@ func H17a1() { h17a(vxString(1)) }
 func H17a2() { h17a(vxString(2)) }
 func H17a3() { h17a(vxString(3)) }
 func H17a4() { h17a(vxString(4)) }
+func H17a5() { h17a(vxString(5)) }
+func H17a7() { h17a(vxString(7)) }
 
 // H17aT: templates - concrete words around two symbolic bytes.
 func H17aT() {
